@@ -38,7 +38,7 @@ var (
 	flagNoReplay = flag.Bool("noreplay", false, "do not replay counterexamples natively")
 	flagSolver   = flag.String("solver", "z3-new", "solver binary")
 	flagMaxPaths = flag.Int("maxpaths", 0, "override max paths")
-	flagUnitSeconds = flag.Int("unit-seconds", 0, "wall-clock budget per unit (default 900 quick / 2400 thorough); exceeding it is reported as incomplete")
+	flagUnitSeconds = flag.Int("unit-seconds", 0, "wall-clock budget per unit (default 1800 quick / 5400 thorough); exceeding it is reported as incomplete")
 	flagPrefix   = flag.String("prefix", "", "run a single path with this decision prefix (debug), e.g. 'B1 B0 V5'")
 	flagEvidence = flag.Bool("evidence", true, "write evidence file")
 )
@@ -255,9 +255,9 @@ func run() int {
 	}
 	unitSeconds := *flagUnitSeconds
 	if unitSeconds == 0 {
-		unitSeconds = 900
+		unitSeconds = 1800
 		if tier == "thorough" {
-			unitSeconds = 2400
+			unitSeconds = 5400
 		}
 	}
 	var unitRe *regexp.Regexp
